@@ -599,7 +599,7 @@ def _candidate_defuse(ctx, chk):
     for n in ast.walk(ms.node):
         if isinstance(n, ast.For) and isinstance(n.iter, ast.Name):
             v = msflow.def_value(n.iter)
-            if v is not None and "nonzero" in ast.unparse(v) and any(isinstance(x, ast.Name) and msflow.def_value(x) is inter for x in ast.walk(v)):
+            if v is not None and "nonzero" in ast.unparse(msflow.expand(v)) and msflow.reaches(v, inter):
                 cand_ok = True
     chk.ob("C01.O5", cand_ok, where_of(ms, inter), "candidate storms = storm indices at the non-zero positions of the overlap: %s" % cand_ok,
            "candidates are exactly the storms overlapping the rise", key="match_storms|candidates-from-overlap")
